@@ -41,7 +41,7 @@ func init() {
 					} else {
 						ch, err = c.PublishExactlyOnce([]byte("x"), "t")
 					}
-					e.evals++
+					e.evals.Add(1)
 					if err != nil {
 						e.violate("C17", "longrun-refused", "publish %d of level %d refused: %v (window %d/%d, every earlier one acknowledged)", i, lvl, err, cf.w1, cf.w2)
 						break
@@ -98,7 +98,7 @@ func init() {
 					} else {
 						_, err = c.PublishExactlyOnceRetained(nil, "t")
 					}
-					e.evals++
+					e.evals.Add(1)
 					if i < win && err != nil {
 						e.violate("C17", "window-refused-early", "publish %d of level %d refused with window %d: %v", i, lvl, win, err)
 						break
@@ -165,7 +165,7 @@ func init() {
 			} else {
 				err = c.Subscribe(nil, "s")
 			}
-			e.evals++
+			e.evals.Add(1)
 			if err != nil {
 				e.violate("C11", "idwrap-request-failed", "request %d: %v", i, err)
 				return
@@ -260,7 +260,7 @@ func init() {
 			time.Sleep(time.Millisecond)
 		}
 		pk, _ := conn.packets()
-		e.evals += len(pk)
+		e.evals.Add(int64(len(pk)))
 		if len(pk) != slots {
 			e.violate("C17", "slots-not-submitted", "%d of %d requests reached the wire", len(pk), slots)
 		}
@@ -292,7 +292,7 @@ func init() {
 		case <-time.After(20 * time.Second):
 			e.violate("C17", "slot-limit-blocks", "request %d blocks instead of returning ErrMax", slots+1)
 		}
-		e.evals++
+		e.evals.Add(1)
 		// abandon ten, answer them late, then issue ten new ones: fresh identifiers
 		for i := 0; i < 10; i++ {
 			close(quits[i])
@@ -315,7 +315,7 @@ func init() {
 		}
 		pk2, _ := conn.packets()
 		for _, p := range pk2 {
-			e.evals++
+			e.evals.Add(1)
 			// pending: slots 10.. of the first round
 			for j, q := range pk {
 				if j >= 10 && q.ID == p.ID {
